@@ -17,6 +17,7 @@ from .values import *
 from .ops import *
 from . import ops
 from .sources import SOURCES
+from .chars import VChars, to_vstr, chars_eq, as_chars
 
 sys.setrecursionlimit(20000)
 
@@ -163,7 +164,7 @@ class Interp:
         if st.dead:
             return False
         from . import arith
-        if arith.infeasible(st.pc[-12:] if len(st.pc) > 40 else st.pc):
+        if arith.infeasible(st.pc):
             st.dead = True
             return False
         return True
@@ -180,6 +181,8 @@ class Interp:
             yield st, VBool(len(v.v) > 0) if v.concrete else mk_bool(z3.Length(v.v) > 0)
         elif v is VNone:
             yield st, VBool(False)
+        elif isinstance(v, VChars):
+            yield st, VBool(len(v.codes) > 0)
         elif isinstance(v, VTuple):
             yield st, VBool(len(v.items) > 0)
         elif isinstance(v, VFloat):
@@ -1020,6 +1023,8 @@ class Interp:
                         yield from self.iter_concrete(s1, r, node)
             else:
                 raise Unsupported(f"iteration over {h}", node)
+        elif isinstance(v, VChars):
+            yield st, [(VInt(c) if v.is_bytes else VChars([c], False)) for c in v.codes]
         elif isinstance(v, (VStr, VBytes)):
             if not v.concrete:
                 raise Unsupported("iteration over symbolic string needs an invariant", node)
@@ -1468,35 +1473,72 @@ class Interp:
             yield s1, s1.alloc(HDict(d))
 
     def e_JoinedStr(self, node, st, fr):
-        parts = []
+        from .chars import int_to_chars
+
+        def finish(st, acc):
+            if all(isinstance(a, str) for a in acc):
+                return VStr(''.join(acc))
+            if all(isinstance(a, (str, VChars)) for a in acc):
+                codes = []
+                for a in acc:
+                    codes += [ord(c) for c in a] if isinstance(a, str) else a.codes
+                return VChars(codes, False)
+            ts = []
+            for a in acc:
+                if isinstance(a, str):
+                    if a:
+                        ts.append(mk_str(a))
+                elif isinstance(a, VChars):
+                    ts.append(to_vstr(a).term())
+                else:
+                    ts.append(a)
+            return VStr(z3.Concat(*ts) if len(ts) > 1 else ts[0])
 
         def go(i, st, acc):
             if i == len(node.values):
-                if all(isinstance(a, str) for a in acc):
-                    yield st, VStr(''.join(acc))
-                else:
-                    ts = [mk_str(a) if isinstance(a, str) else a for a in acc if not (isinstance(a, str) and a == '')]
-                    yield st, VStr(z3.Concat(*ts) if len(ts) > 1 else ts[0])
+                yield st, finish(st, acc)
                 return
             p = node.values[i]
             if isinstance(p, ast.Constant):
                 yield from go(i + 1, st, acc + [p.value])
                 return
+            spec = None
+            if p.format_spec is not None:
+                if all(isinstance(x, ast.Constant) for x in p.format_spec.values):
+                    spec = ''.join(x.value for x in p.format_spec.values)
+                else:
+                    spec = NotImplemented
             for s1, v in self.ev(p.value, st, fr):
                 if isinstance(v, Raise):
                     yield s1, v
                     continue
-                if p.format_spec is None and p.conversion == -1 and isinstance(v, VStr):
+                if spec is None and p.conversion == -1 and isinstance(v, VStr):
                     yield from go(i + 1, s1, acc + [v.v])
-                elif p.format_spec is None and p.conversion == -1 and isinstance(v, VInt):
-                    yield from go(i + 1, s1, acc + [int_to_dec(v.v)])
-                elif v.concrete and not isinstance(v, (VRef,)) and p.format_spec is None:
+                elif spec is None and p.conversion == -1 and isinstance(v, VChars) and not v.is_bytes:
+                    yield from go(i + 1, s1, acc + [v])
+                elif p.conversion == -1 and isinstance(v, VInt) and not v.concrete and spec is not NotImplemented and \
+                        (spec is None or spec.rstrip('d').isdigit() or spec in ('', 'd')):
+                    sp = (spec or '').rstrip('d')
+                    from .chars import max_digits
+                    if s1.entails(v.v >= 0) and max_digits(s1, v.v) is None or \
+                            (not s1.entails(v.v >= 0) and max_digits(s1, z3.If(v.v >= 0, v.v, -v.v)) is None):
+                        if spec in (None, '', 'd'):
+                            yield from go(i + 1, s1, acc + [int_to_dec(v.v)])
+                            continue
+                        self.assumptions.add("f-string pieces that format unbounded symbolic ints with a width are unknown strings")
+                        yield from go(i + 1, s1, acc + [z3.String(fresh_name('fstr'))])
+                        continue
+                    for s2, ch in int_to_chars(self, s1, v, int(sp) if sp else None, sp.startswith('0')):
+                        yield from go(i + 1, s2, acc + [ch])
+                elif v.concrete and not isinstance(v, (VRef,)) and spec is not NotImplemented:
                     try:
                         n = unlift(v)
-                        conv = {-1: str, 115: str, 114: repr, 97: ascii}[p.conversion]
-                        yield from go(i + 1, s1, acc + [conv(n)])
+                        conv = {-1: (lambda x: x), 115: str, 114: repr, 97: ascii}[p.conversion]
+                        yield from go(i + 1, s1, acc + [format(conv(n), spec or '')])
                     except NotConcrete:
                         yield from go(i + 1, s1, acc + [z3.String(fresh_name('fstr'))])
+                    except (ValueError, TypeError) as e:
+                        yield s1, exc(type(e), str(e))
                 else:
                     # formatting of symbolic/complex values: an unknown string (sound over-approximation)
                     self.assumptions.add("f-string pieces that format symbolic non-str values are unknown strings")
@@ -1607,6 +1649,13 @@ class Interp:
         if isinstance(a, VRef) or isinstance(b, VRef):
             yield from self.bm.ref_binop(self, st, op, a, b, node)
             return
+        if isinstance(a, VChars) or isinstance(b, VChars):
+            ca, cb = as_chars(a), as_chars(b)
+            if isinstance(op, ast.Add) and ca is not None and cb is not None and ca.is_bytes == cb.is_bytes:
+                yield st, VChars(ca.codes + cb.codes, ca.is_bytes)
+                return
+            a = to_vstr(a) if isinstance(a, VChars) else a
+            b = to_vstr(b) if isinstance(b, VChars) else b
         yield from self.alts(st, binop(op, a, b))
 
     def e_BinOp(self, node, st, fr):
@@ -1675,6 +1724,8 @@ class Interp:
                 return
         if isinstance(a, VRef) or isinstance(b, VRef):
             raise Unsupported("ordering on heap objects", node)
+        a = to_vstr(a) if isinstance(a, VChars) else a
+        b = to_vstr(b) if isinstance(b, VChars) else b
         r = order_term(op, a, b)
         if isinstance(r, Raise):
             yield st, r
@@ -1703,6 +1754,13 @@ class Interp:
         if isinstance(a, VRef) or isinstance(b, VRef):
             yield from self.bm.ref_equals(self, st, a, b, node)
             return
+        if isinstance(a, VChars) or isinstance(b, VChars):
+            r = chars_eq(a, b)
+            if r is not None:
+                yield st, (VBool(r) if isinstance(r, bool) else mk_bool(r))
+                return
+            a = to_vstr(a) if isinstance(a, VChars) else a
+            b = to_vstr(b) if isinstance(b, VChars) else b
         r = eq_term(a, b)
         yield st, (VBool(r) if isinstance(r, bool) else mk_bool(r))
 
@@ -1750,6 +1808,12 @@ class Interp:
                 yield st, exc(AttributeError, f"'{pyt.__name__}' object has no attribute '{name}'")
                 return
             yield st, VBuiltinMethod(o, name)
+            return
+        if isinstance(o, VChars):
+            if not hasattr(bytes if o.is_bytes else str, name):
+                yield st, exc(AttributeError, f"no attribute '{name}'")
+            else:
+                yield st, VBuiltinMethod(o, name)
             return
         if isinstance(o, VTuple):
             if o.cls is not None and name in o.cls._fields:
